@@ -55,6 +55,12 @@ type shared struct {
 	masks      []int32
 	decBM      [][]uint64
 	vals       []uint64
+	// seeded argument lists: a different argument class per case
+	sliceArgs [][2]int32
+	scanArgs  [][2]int32
+	fsArgs    [][2]int32
+	apArgs    [][2]uint64
+	fdArgs    [][2]int
 }
 
 func mkShared(r *rand.Rand) *shared {
@@ -99,6 +105,46 @@ func mkShared(r *rand.Rand) *shared {
 	}
 	for i := 0; i < 40; i++ {
 		s.vals = append(s.vals, r.Uint64())
+	}
+	n := int32(len(s.bm) * 64)
+	al := func() int32 { return int32(r.Intn(len(s.bm)+1)) * 64 }
+	un := func() int32 { return int32(r.Intn(int(n) + 1)) }
+	pair := func(a, b int32) [2]int32 {
+		if a > b {
+			a, b = b, a
+		}
+		return [2]int32{a, b}
+	}
+	// every alignment class of (from, to): aligned/unaligned, unaligned/aligned, aligned/aligned, unaligned/unaligned, empty
+	s.sliceArgs = [][2]int32{pair(al(), un()), pair(un(), al()), pair(al(), al()), pair(un(), un()), {64, 64 + int32(1+r.Intn(63))}, {al(), n}}
+	x := un()
+	s.sliceArgs = append(s.sliceArgs, [2]int32{x, x})
+	for i := 0; i < 8; i++ {
+		a, b := un(), un()
+		p := pair(a, b)
+		if p[0] >= n {
+			p[0] = n - 1
+		}
+		if p[1] < 1 {
+			p[1] = 1
+		}
+		if p[0] > p[1] {
+			p[0] = p[1]
+		}
+		s.scanArgs = append(s.scanArgs, p)
+	}
+	for i := 0; i < 6; i++ {
+		s.fsArgs = append(s.fsArgs, [2]int32{int32(r.Intn(80)), int32(r.Intn(33))})
+	}
+	for i := 0; i < 4; i++ {
+		a, b := r.Uint64()>>uint(r.Intn(40)), r.Uint64()>>uint(r.Intn(40))
+		if a > b {
+			a, b = b, a
+		}
+		s.apArgs = append(s.apArgs, [2]uint64{a, b})
+	}
+	for i := 0; i < 6; i++ {
+		s.fdArgs = append(s.fdArgs, [2]int{r.Intn(12), r.Intn(40) - 1})
 	}
 	return s
 }
@@ -170,6 +216,56 @@ func (s *shared) calls() []call {
 			return r
 		}},
 		{"SliceAligned", func() interface{} { return [][]uint64{bitmap.Slice(s.bm, 64, 67), bitmap.Slice(s.bm, 0, 5), bitmap.Slice(s.bm, 64, 64+36)} }},
+		{"SliceSeeded", func() interface{} {
+			var r [][]uint64
+			for _, a := range s.sliceArgs {
+				r = append(r, bitmap.Slice(s.bm, a[0], a[1]))
+			}
+			return r
+		}},
+		{"NextPrevSeeded", func() interface{} {
+			var r []int32
+			for _, a := range s.scanArgs {
+				r = append(r, bitmap.NextOne(s.bm, a[0], a[1]), bitmap.PrevOne(s.bm, a[0], a[1]))
+			}
+			return r
+		}},
+		{"FromStr32Seeded", func() interface{} {
+			var r []uint64
+			for _, k := range s.keys {
+				for _, a := range s.fsArgs {
+					l, v := bitmap.FromStr32(k, a[0], a[0]+a[1])
+					r = append(r, uint64(l), v, bmtree.PathOf(k, a[0], a[1]))
+				}
+			}
+			return r
+		}},
+		{"AllPathsSeeded", func() interface{} {
+			var r [][]uint64
+			for i, a := range s.apArgs {
+				m := s.masks[i%3] // heights 3, 5, 8: small outputs
+				r = append(r, bmtree.AllPaths(m, a[0], a[1]), bmtree.AllPaths(m, 0, a[1]))
+			}
+			return r
+		}},
+		{"FirstDiffSeeded", func() interface{} {
+			var r []int
+			for _, w := range []int{1, 2, 4, 8} {
+				for _, a := range s.fdArgs {
+					r = append(r, bitword.BitWord[w].FirstDiff(s.keys[0], s.keys[1], a[0], a[1]), bitword.BitWord[w].FirstDiff(s.keys[1], s.keys[2], a[0], a[1]))
+				}
+			}
+			return r
+		}},
+		{"GetwAll", func() interface{} {
+			var r []uint64
+			for _, w := range []int32{1, 2, 4, 8, 16, 32, 64} {
+				for i := int32(0); i < int32(len(s.bm))*64/w; i += 1 + int32(len(s.bm))*8/w {
+					r = append(r, bitmap.Getw(s.bm, i, w))
+				}
+			}
+			return r
+		}},
 		{"SliceUnaligned", func() interface{} { return [][]uint64{bitmap.Slice(s.bm, 3, 131), bitmap.Slice(s.bm, 70, 200)} }},
 		{"ToArray", func() interface{} { return bitmap.ToArray(s.bm2) }},
 		{"Index", func() interface{} {
